@@ -910,6 +910,8 @@ def Array_iadd_prefactor_other(self, prefactor, other):
             if calc_dtype_num == -1:
                 ta += tb * prefactor
             else:
+                if np.PyArray_DATA(ta) == np.PyArray_DATA(tb):
+                    tb = tb.copy()  # BLAS axpy does not allow x and y to be the same memory
                 _blas_inpl_add(np.PyArray_SIZE(ta), np.PyArray_DATA(ta), np.PyArray_DATA(tb),
                                cplx_prefactor, calc_dtype_num)
     else:
@@ -925,6 +927,8 @@ def Array_iadd_prefactor_other(self, prefactor, other):
                 if calc_dtype_num == -1:
                     ta += tb * prefactor
                 else:
+                    if np.PyArray_DATA(ta) == np.PyArray_DATA(tb):
+                        tb = tb.copy()  # BLAS axpy does not allow x and y to be the same memory
                     _blas_inpl_add(np.PyArray_SIZE(ta), np.PyArray_DATA(ta), np.PyArray_DATA(tb),
                                    cplx_prefactor, calc_dtype_num)
                 new_data.append(ta)
